@@ -21,6 +21,7 @@ EXPLANATION = (
     "frame); R8 remote and error frames are not delivered as data; R9 every variable write refreshes a running cyclic transmission; "
     "R10 the bit-field codec (all rules of C05) is part of this property: the value read is the value written; R12 item access designates variables of the current mapping, first match in map order; R13 subscribe() registers an enabled map for (cob_id, on_message) on every call and removes at most its own handler (shared with C09.R4); R14 read() decodes identifier, enabled and rtr_allowed from the COB-ID word of sub-index 1 (evaluated for probe words; the RTR guard of R5 and the reception guard of R1 depend on them; shared with C09.R2); R11 structural assumptions shared by all properties: no class-level mutable object is mutated in place by instances, no method re-runs the constructor, logging statements cannot raise (typed eager formatting, divisions), no mutable default argument is kept or mutated, no new truth-value test of a None-able number, a look-up memory the pinned tree does not have is keyed by all its inputs (arithmetic keys folded over a grid of addresses) and, on the serving side, emptied somewhere."
     " R8 also: Network.notify hands the frame's own id, data and timestamp on (re-bound only under `is None`); R12 also: PdoBase.__getitem__ keeps no memory of earlier answers."
+    ' R2 also: the order of stores and notify inside one with-block is free, user callbacks run only after the waiters were woken.'
 )
 ASSUMPTIONS = [
     "not decided: values and schedules",
